@@ -64,8 +64,8 @@ var props = map[string]propInfo{
 	"C09": {
 		Engine: "pbfsim", Race: true, Level: "exploration",
 		QuickRuns: 1500, ThoroughRuns: 60000, QuickSecs: 600, ThoroughSecs: 4 * 3600, Chunk: 100,
-		Rule:   "a run is one generated file (1-8 blocks) with a drawn skip mask (empty blocks), a full scan that checks FullyScannedBytes / PreviousFullyScannedBytes after every successful Scan against the file's block table, and crash/restart executions: the consumer stops after k objects (k = 0, 1, all and 6 drawn values), persists the reported offset (and, separately, the previous offset) and a new scanner with independently drawn decoder count and schedule is started on data[offset:]; it must yield exactly the remaining objects beginning with the first object of that block. The offsets are also read after the final Scan()==false and after a scan cancelled at a drawn point (by the scanning goroutine after k objects, or by a second goroutine after a drawn simulated delay): the count must be the start of an existing block, not before the block of the most recently returned object and not beyond any undelivered object, and a scanner resumed there must yield exactly the objects from that block on. Every restart execution is non-trivial",
-		Probes: []string{"empty-blocks-from-skip-flags", "resumed-scan-starts-at-a-data-block", "offset-read-after-end-of-input", "offset-read-after-cancelled-scan"},
+		Rule:   "a run is one generated file (1-8 blocks) with a drawn skip mask (empty blocks), a full scan that checks FullyScannedBytes / PreviousFullyScannedBytes after every successful Scan against the file's block table, and crash/restart executions: the consumer stops after k objects (k = 0, 1, all and 6 drawn values), persists the reported offset (and, separately, the previous offset) and a new scanner with independently drawn decoder count and schedule is started on data[offset:] or on a seekable reader over the whole data positioned at the offset, half of the time calling Header() first; it must yield exactly the remaining objects beginning with the first object of that block. The offsets are also read after the final Scan()==false and after a scan cancelled at a drawn point (by the scanning goroutine after k objects, or by a second goroutine after a drawn simulated delay): the count must be the start of an existing block, not before the block of the most recently returned object and not beyond any undelivered object, and a scanner resumed there must yield exactly the objects from that block on. Every restart execution is non-trivial",
+		Probes: []string{"empty-blocks-from-skip-flags", "resumed-scan-starts-at-a-data-block", "offset-read-after-end-of-input", "offset-read-after-cancelled-scan", "resumed-through-a-seekable-reader", "resumed-scan-asked-for-header-first"},
 		Real:   pbfReal, Simulated: pbfSim,
 		Assumptions: append([]string{"offsets are asserted after successful Scan calls only"}, commonAssumptions...),
 	},
